@@ -1,5 +1,5 @@
 (* C17 — non-vacuity: concrete values meeting the theorems' hypotheses, and the contrast cases. *)
-From CJ Require Import Common.Base C17.Model C17.Sites C17.Proofs.
+From CJ Require Import Common.Base C17.Model C17.Sites C17.Proofs C17.SitesProofs.
 
 (* read tcp 192.0.2.77:443->203.0.113.9:51234: read: network is unreachable  (errno 101 is not in the sanitiser's list) *)
 Definition e_unreach : eshape := EOp true (ESys (Leaf (LErrno 101))).
